@@ -70,6 +70,21 @@ def gen_cases(ck, rng, quick):
         degs = list(range(n)) if n <= 16 else sorted(set([0, 1, 2, 3, 5, n // 2, n // 2 + 1, n - 3, n - 1] + [rng.randrange(n) for _ in range(6)] + [1 << j for j in range(lg)]))
         for d in degs:
             add(f"K vc{lg}_{d} vcos {n} {d}", "vanishing over coset")
+        # decoders' table checks: the true tables, one entry moved, wrong length, degree >= size
+        if 1 <= lg <= 6:
+            g = 7
+            lin = [g * pow(w, i, R) % R for i in range(n)]
+            for tag, tab in (("true", lin), ("moved", lin[:n // 2] + [(lin[n // 2] + 1) % R] + lin[n // 2 + 1:]), ("short", lin[:-1]), ("long", lin + [lin[0]]), ("rot", lin[1:] + lin[:1])):
+                add(f"K ml{lg}_{tag} mlin {n} " + " ".join(hx(x) for x in tab), "matches_linear_poly_over_coset")
+            for d in sorted(set([1, 2, 3, n // 2, n - 1, n, n + 1])):
+                van = [(pow(g * pow(w, i, R) % R, d, R) - 1) % R for i in range(n)]
+                for tag, tab in (("true", van), ("moved", van[:-1] + [(van[-1] + 1) % R]), ("short", van[:-1]), ("other", [(pow(g * pow(w, i, R) % R, d + 1, R) - 1) % R for i in range(n)])):
+                    add(f"K mv{lg}_{d}_{tag} mvan {n} {d} " + " ".join(hx(x) for x in tab), "matches_vanishing_poly_over_coset")
+        add(f"K el{lg} elems {n}", "domain elements")
+        for ln in sorted(set([n, max(1, n - 1), n // 2 + 1])):
+            ev = vec(rng, ln, rng.choice(["random", "trailing", "zeros"]))
+            add(f"K ip{lg}_{ln} interp {n} " + " ".join(hx(x) for x in ev), "Evaluations::interpolate")
+        add(f"K pw{lg} pows {hx(rng.choice([0, 1, R - 1, rng.scalar()]))} {rng.randrange(0, 40)}", "powers_of")
         add(f"K d{lg} dom {n}", "domain")
         if n > 1: add(f"K dm{lg} dom {n - 1}", "domain")
     return L
